@@ -353,6 +353,15 @@ add("C12", "fixed", "logical-grouping", "with logical_parentheses on, a grouping
      {"kind": "tree", "ctx": "ternary", "tokens": ["(", {"v": True, "name": "p"}, "or", {"v": False, "name": "q"}, ")", "and", {"v": True, "src": "(1..3) contains 2"}]},
      {"kind": "tree", "ctx": "unless", "tokens": ["(", {"v": True, "src": "s2 == '..'"}, ")"]}], "304cf02")
 
+# ----------------------------------------------------------------------------- C18 fixed in round 4 (first reported by an independent sub-agent)
+add("C18", "fixed", "output-differs:widget", "a template with its own extends tag, included from inside a block of another chain, cleared the shared block stacks: the rest of the outer chain fell back to its base definitions",
+    [{"kind": "pinned", "leaf": "leaf", "data": {"g1": "G1"}, "async": False, "templates": {
+        "leaf": {"extends": "base", "items": [["block", "a", False, [["text", "a2"], ["widget", "widget"]], None], ["block", "b", False, [["text", "b2"]], None]]},
+        "base": {"extends": None, "items": [["text", "["], ["block", "a", False, [["text", "A"]], None], ["text", "|"], ["block", "b", False, [["text", "B"]], None], ["text", "]"]]}}},
+     {"kind": "pinned", "leaf": "leaf", "data": {"g1": "G1"}, "async": True, "templates": {
+        "leaf": {"extends": "base", "items": [["block", "a", False, [["widget", "widget2"], ["text", "a2"]], None], ["block", "b", False, [["text", "b2"]], None]]},
+        "base": {"extends": None, "items": [["block", "a", False, [["text", "A"]], None], ["block", "b", False, [["text", "B"]], None]]}}}], "ce68498")
+
 if __name__ == "__main__":
     # further entries are appended by tools/mkfindings.py from triaged replay files and kept in findings_extra.json
     extra_path = os.path.join(VERIF, "tools", "findings_extra.json")
